@@ -93,6 +93,9 @@ func nidCl(nid string) bool {
 	}
 	nid = strings.ToLower(nid)
 	nid = nonDigitOrK.ReplaceAllString(nid, "")
+	if len(nid) == 0 {
+		return false
+	}
 	rut, _ := strconv.Atoi(nid[:len(nid)-1])
 	dv := nid[len(nid)-1:]
 
